@@ -279,9 +279,10 @@ structure Writes where
   deriving Repr, DecidableEq
 
 def Writes.ofTable (t : List FieldWrite) : Writes where
-  dfrArgs := t.any fun w => w.ty == "deferred" && w.field == "arguments" && w.fn == "deferred.Resolve"
+  -- (whatever function holds the statement: `Resolve` itself or a helper it calls; not the construction of a new object)
+  dfrArgs := t.any fun w => w.ty == "deferred" && w.field == "arguments" && w.kind != .fresh
   dtyMemo :=
-    let rows := t.filter fun w => w.ty == "DeferredType" && w.field == "resolved" && w.fn == "DeferredType.Resolve"
+    let rows := t.filter fun w => w.ty == "DeferredType" && w.field == "resolved" && w.kind != .fresh
     if rows.isEmpty then none else some (rows.all fun w => w.kind == .lazyFill)
 
 /-! ### the implementation layer: the walk over objects, writes included
